@@ -154,8 +154,11 @@ def _init_fini(ck, P, cfg):
             inc = X.strip(l.children[3])
             if not iv or not iv[0].children:
                 continue
+            bound = X.strip(cond.children[1]) if cond.k == "BinaryOperator" else None
+            if bound is not None and bound.k == "DeclRefExpr" and bound.d.get("sc") == "local":
+                bound = Q.resolve_local(f, bound)
             if not (X.is_zero(iv[0].children[0]) and cond.k == "BinaryOperator" and cond.op == "<" and X.show(cond.children[0]) == iv[0].name and
-                    X.show(cond.children[1]) == "global_config.lps" and inc.k == "UnaryOperator" and inc.op == "++"):
+                    bound is not None and X.show(bound) == "global_config.lps" and inc.k == "UnaryOperator" and inc.op == "++"):
                 continue
             # LP_INIT goes through msg_allocator_pack(i, 0, LP_INIT,...) + common_msg_process; LP_FINI through the dispatcher
             if what == "LP_INIT":
